@@ -1,5 +1,6 @@
 import PycsepVerif.Proto
 import PycsepVerif.Model.BinaryBrier
+import PycsepVerif.Model.BinaryTests
 /-! driver ops of C16 (Float instance of Model/BinaryBrier). Floats travel as IEEE-754 bit patterns.
     `c16_bll <rates> <counts>`, `c16_brier <dims> <rates> <counts>`,
     `c16_test <S|CL|BO> <data rows> <count rows>`, `c16_bsim <data rows> <sim counts>`, `c16_cells <data rows> <count rows>` (binary_spatial_likelihood),
@@ -8,6 +9,20 @@ namespace Drive.C16
 open Proto BinaryBrier
 
 def parseNat? (s : String) : Option Nat := s.toNat?
+
+/-- rows of uniform numbers: `R` followed by `;`-separated comma lists (`-` = a row without numbers); `R` alone = no row -/
+def parseRows? (s : String) : Option (List (List Rat)) :=
+  if s.startsWith "R" then
+    let rest := (s.drop 1).toString
+    if rest = "" then some [] else (rest.splitOn ";").mapM (parseList? parseRat?)
+  else none
+
+def showOut (o : Option (TestOut Float)) : String :=
+  match o with
+  | none => "exception"
+  | some out =>
+    " ".intercalate (showFloat out.obs :: out.sims.map showFloat) ++ " | " ++ s!"{out.q.1}/{out.q.2}" ++ " | " ++
+      (if out.arrays.isEmpty then "-" else ";".intercalate (out.arrays.map (showList toString)))
 
 def handle : List String → Option String
   | ["c16_bll", rs, cs] => some (match parseList? parseFloat? rs, parseList? parseNat? cs with
@@ -41,6 +56,17 @@ def handle : List String → Option String
   | ["c16_cells", d, c] => some (match parseList2? parseFloat? d, parseList2? parseNat? c with
       | some d, some c => showList showFloat (binarySpatialMap (α := Float) d c)
       | _, _ => "bad-op")
+  -- c16_pipe <L|B> <dims> <rates n/d> <rates bits> <counts> <rows> : the whole test from rates, counts and uniform numbers
+  | ["c16_pipe", m, ds, rq, rb, cs, rows] =>
+      some (match parseList? parseNat? ds, parseList? parseRat? rq, parseList? parseFloat? rb, parseList? parseNat? cs,
+                  parseRows? rows with
+      | some ds, some rq, some rb, some cs, some rows =>
+        if rq.length ≠ rb.length ∨ rq.length ≠ cs.length then "bad-op" else
+        (match m with
+         | "L" => showOut (binaryLikelihoodTest (α := Float) rq rb cs rows)
+         | "B" => showOut (brierScoreTest (α := Float) rq rb ds cs rows)
+         | _ => "bad-op")
+      | _, _, _, _, _ => "bad-op")
   | ["c16_bsim", d, c] => some (match parseList2? parseFloat? d, parseList? parseNat? c with
       | some d, some c => showFloat (brierSimStat (α := Float) d c)
       | _, _ => "bad-op")
